@@ -199,6 +199,14 @@ impl Store {
         })
     }
 
+    /// Mark the store as poisoned: a step of a commit failed outside of [`Self::commit`] and the
+    /// handle must refuse further commits.
+    pub fn poison(&self) {
+        self.shared
+            .poisoned
+            .store(true, std::sync::atomic::Ordering::Relaxed);
+    }
+
     pub fn is_poisoned(&self) -> bool {
         self.shared
             .poisoned
